@@ -18,6 +18,11 @@ claimed = {
    note="Assumed: contracts of package time on whole seconds (time.Unix, Time.Add, Time.Unix, Time.Sub, Duration.Nanoseconds: listed in the evidence as assumed), region assumptions (facts established by the code before the region, e.g. streamCountBefore <= len(streams)), run-time checks inside the two large functions are assumed to pass (nosafety). Search-result equality and file I/O are not covered.",
    tech="contract-based deductive verification: region contracts + loop invariants, own VC generator over go/ssa + z3/cvc5",
    ref="DESIGN.md section 4 (C07)"),
+ "C14": dict(
+   text="Deductive proof of totality facts on the real parser code: the value and term capture functions and the host-mask parser are free of index/slice panics for every token text the grammar can hand them (all inputs, with the token shapes as preconditions) and their loops terminate; every loop of the number-filter and flag-filter simplification (cleanNumberConditions, cleanFlagConditions, including the common-factor search and the 16-bit mask enumerations) terminates, proved with a variant per loop; the sort comparator of tag conditions equals a spec function that is proved to be a strict total order, so the normal form of tag conditions does not depend on map iteration order. Functions of the parser not listed under functions_under_contract in the evidence are not decided by this check; promptness is a complexity claim and is not decided.",
+   note="Assumed: participle's lexer/parser is total and delivers tokens matching its patterns (token shapes are preconditions); strings.HasPrefix/HasSuffix/strconv.ParseInt contracts; in the two large simplification functions run-time checks are assumed to pass (nosafety) and each loop is verified from its invariant alone; loop 3 of cleanNumberConditions assumes no factor equals MinInt64.",
+   tech="contract-based deductive verification: no-panic sweep + loop variants, own VC generator over go/ssa + z3/cvc5",
+   ref="DESIGN.md section 4 (C14)"),
  "C15": dict(
    text="Deductive proof of the varint codec on the real functions: writeVarInt emits exactly the base-128 encoding of its argument (1..10 bytes, proved by complete unrolling with the unwinding obligation), readVarInt returns the value decoded from the bytes it consumed, stops at the first byte without continuation bit, reports the consumed length and fails only when the underlying reader fails (ghost log of ReadByte results); ten round-trip lemmas (one per encoded length) prove decode(encode(x)) = x as bit-vector facts over the two contracts. The cache file as a whole (varbytes/strings, records, accounting, compaction, invalidation, reopen, torn tail) is not within the verifier's reach yet; a bounded stand-in (labelled bounded, not counted as proved) drives real cache files through operation sequences against a map model.",
    note="Assumed: io.ByteReader/io.Writer are modelled by ghost logs of their results; binary.Write writes the slice it is given. The stand-in is bounded (sequence length, ids, chunk lists stated in the evidence). Known findings: invalidation is not durable across reopen; empty chunks are not representable.",
